@@ -1,5 +1,11 @@
 package main
 
+import (
+	"strings"
+
+	"golang.org/x/tools/go/ssa"
+)
+
 func init() {
 	register("C03", &propInfo{
 		Explanation: "GD: the library's only wrapper around arbitrary predicates (CheckedFuncSolid, 2D and 3D) calls the predicate only after both bound tests; no library function builds a solid with the unchecked FuncSolid; the Contains methods whose membership test is defined outside their box return non-false only under InBounds(receiver, point). UNIT: bound expressions in bounder.go, solid.go, shapes.go, metaball.go, polytope.go and the toolbox parts are dimensionally consistent (a bound is a length). ABSORB: no bound is computed as x.Max(y.Min(x)) / x.Min(y.Max(x)). BOUNDDIR: within one combinator type the operands' lower bounds are always folded with one of Coord.Min/Max and the upper bounds with the other.",
@@ -13,14 +19,29 @@ func init() {
 			pkgs := c.unitPkgs("u")
 			ff := c.fileFilter("bounder.go", "solid.go", "shapes.go", "metaball.go", "polytope.go", "transform.go",
 				"screw.go", "teardrop.go", "ramp.go", "clamp.go", "gear.go", "height_map.go", "line_join.go", "radial_curve.go", "rect_set.go", "slice.go")
-			_ = ff // the units rule runs over every file of the four geometry packages (silent on all of them today)
+			// Scope: the files that define solids, their bounds and the toolbox
+			// parts, minus collider methods (a collider is not a solid: changes to
+			// ray/ball queries leave this property alone and are watched by C07).
+			solidFns := func(fn *ssa.Function) bool {
+				if !ff(fn) {
+					return false
+				}
+				for f := fn; f != nil; f = f.Parent() {
+					if f.Signature.Recv() != nil && strings.Contains(strings.ToLower(typeNameOf(f.Signature.Recv().Type())), "collider") {
+						return false
+					}
+				}
+				return true
+			}
 			unitOriginRule = "ORIGIN"
-			c.runUnits("UNIT", pkgs, nil)
+			c.runUnits("UNIT", pkgs, solidFns)
 			unitOriginRule = ""
-			c.floor("ORIGIN", 40)
-			c.floor("UNIT", 200)
-			c.runArgSwap("ARGSWAP", pkgs, nil, func(a, b string) bool { return a == "min" && b == "max" || a == "max" && b == "min" })
-			c.floor("ARGSWAP", 40)
+			c.floor("ORIGIN", 30)
+			c.floor("UNIT", 100)
+			solidFiles := baseIn("bounder.go", "solid.go", "shapes.go", "metaball.go", "polytope.go", "transform.go",
+				"screw.go", "teardrop.go", "ramp.go", "clamp.go", "gear.go", "height_map.go", "line_join.go", "radial_curve.go", "rect_set.go", "slice.go")
+			c.runArgSwap("ARGSWAP", pkgs, solidFiles, func(a, b string) bool { return a == "min" && b == "max" || a == "max" && b == "min" })
+			c.floor("ARGSWAP", 8)
 			c.runAbsorption("ABSORB", append(c.libPkgs()[:3:3], c.fixturePkg("g")), nil)
 			c.floor("ABSORB", 100)
 			c.runBoundDirection("BOUNDDIR", c.libPkgs()[:3], nil)
